@@ -275,6 +275,9 @@ func doubleArea2(flatCoords []float64, offset int, ends []int, stride int) float
 func doubleArea3(flatCoords []float64, offset int, endss [][]int, stride int) float64 {
 	var doubleArea float64
 	for _, ends := range endss {
+		if len(ends) == 0 {
+			continue
+		}
 		doubleArea += doubleArea2(flatCoords, offset, ends, stride)
 		offset = ends[len(ends)-1]
 	}
@@ -394,6 +397,9 @@ func length2(flatCoords []float64, offset int, ends []int, stride int) float64 {
 func length3(flatCoords []float64, offset int, endss [][]int, stride int) float64 {
 	var length float64
 	for _, ends := range endss {
+		if len(ends) == 0 {
+			continue
+		}
 		length += length2(flatCoords, offset, ends, stride)
 		offset = ends[len(ends)-1]
 	}
